@@ -3,6 +3,9 @@ CONSTANTS
   SaveSameDirFirst = FALSE
   SeedAllGoverning = TRUE
   RemoveByIdentity = FALSE
+  QueueKept = TRUE
+  ManifestWins = TRUE
+  ForgetUnlinked = TRUE
   Export = FALSE
 INVARIANT C03_ExactCover_ModuloF14
 INVARIANT C10_NothingBeforeSave
